@@ -11,6 +11,10 @@ def digest(seq, acc=0):
 
 def run(w):
     lcd = HD61202Controller()
+    if len(w) % 2 == 0:
+        # every other case starts from a controller that was reset() once (what PCE500Emulator.reset does): resetting a freshly
+        # constructed controller must not change anything that follows
+        lcd.reset()
     out = []
     for op in w:
         p = op.split(":")
